@@ -5,7 +5,7 @@ import os
 import jsonfam
 import verif
 
-NAPI = 31
+NAPI = 36
 
 
 NAPI_M = 20
